@@ -535,8 +535,21 @@ func extraC17ClientKeyWithoutPort(c *Ctx, r *Report) {
 		r.Unresolved("C17-R17", "util.GetClientIP")
 		return
 	}
-	isRemoteAddr := func(v ssa.Value) bool {
-		ld, ok := stripConv(v).(*ssa.UnOp)
+	var isRemoteAddr func(v ssa.Value) bool
+	isRemoteAddr = func(v ssa.Value) bool {
+		v = stripConv(v)
+		// a helper may take the address as a string (`remoteHost(r.RemoteAddr)`): its parameter stands for what every
+		// caller hands in
+		if p, ok := v.(*ssa.Parameter); ok {
+			bs := paramBindings[p]
+			for _, b := range bs {
+				if b == v || !isRemoteAddr(b) {
+					return false
+				}
+			}
+			return len(bs) > 0
+		}
+		ld, ok := v.(*ssa.UnOp)
 		return ok && ld.Op == token.MUL && isField(ld.X, "net/http", "Request", "RemoteAddr")
 	}
 	splitFailed := func(facts []condFact) bool {
